@@ -8,6 +8,7 @@ import (
 	"bytes"
 	"context"
 	"encoding/json"
+	"errors"
 	"flag"
 	"fmt"
 	"io"
@@ -297,6 +298,12 @@ func ParseReq(op *Op, req reflect.Value) (params reflect.Value, err error, panic
 	params = out[0]
 	if len(out) == 2 && !out[1].IsNil() {
 		err = out[1].Interface().(error)
+		// what every handler does with the error: print it and look at its cause
+		// (a panic in Error() is a panic while serving the request)
+		_ = err.Error()
+		for e := errors.Unwrap(err); e != nil; e = errors.Unwrap(e) {
+			_ = e.Error()
+		}
 	}
 	return params, err, ""
 }
